@@ -2,7 +2,32 @@ package overlaydb
 
 import (
 	"bytes"
+
+	scom "github.com/ontio/ontology/core/store/common"
 )
+
+// c03Store is the persisted store under the overlay: one entry with symbolic key and value.
+type c03Store struct{ key, val []byte }
+
+func (s *c03Store) Put(key []byte, value []byte) error { return nil }
+func (s *c03Store) Get(key []byte) ([]byte, error) {
+	if bytes.Equal(key, s.key) {
+		return s.val, nil
+	}
+	return nil, scom.ErrNotFound
+}
+func (s *c03Store) Has(key []byte) (bool, error)                 { return bytes.Equal(key, s.key), nil }
+func (s *c03Store) Delete(key []byte) error                      { return nil }
+func (s *c03Store) NewBatch()                                    {}
+func (s *c03Store) BatchPut(key []byte, value []byte)            {}
+func (s *c03Store) BatchDelete(key []byte)                       {}
+func (s *c03Store) BatchCommit() error                           { return nil }
+func (s *c03Store) Close() error                                 { return nil }
+func (s *c03Store) NewIterator(prefix []byte) scom.StoreIterator { return nil }
+
+func c03NewStore() *c03Store {
+	return &c03Store{key: c03Key("pkey"), val: nondetBytes("pval", 1+nondetRange("pval.len", 2))}
+}
 
 // C03: the block change hash / write set depend only on the final content of each touched key.
 
@@ -44,7 +69,7 @@ func c03RandHeight(p *MemDB) int {
 // Harness_C03_stream: after any sequence of put / delete / overwrite operations the byte stream fed to the
 // change hash and the write set enumerate exactly the reference content in key order.
 func Harness_C03_stream() {
-	db := NewOverlayDB(nil)
+	db := NewOverlayDB(c03NewStore())
 	ref := &c03Ref{}
 	k := param("ops")
 	for i := 0; i < k; i++ {
@@ -91,7 +116,8 @@ func Harness_C03_stream() {
 
 // Harness_C03_hash_order: two different operation histories with the same final content give the same hash.
 func Harness_C03_hash_order() {
-	a, b := NewOverlayDB(nil), NewOverlayDB(nil)
+	st := c03NewStore()
+	a, b := NewOverlayDB(st), NewOverlayDB(st)
 	k1, k2 := c03Key("k1"), c03Key("k2")
 	v1 := nondetBytes("v1", nondetRange("v1.len", param("maxvallen")+1))
 	v2 := nondetBytes("v2", nondetRange("v2.len", param("maxvallen")+1))
@@ -105,4 +131,30 @@ func Harness_C03_hash_order() {
 	b.Put(k1, v1)
 	b.Put(k2, v2)
 	assert(a.ChangeHash() == b.ChangeHash(), "change-hash-independent-of-history")
+}
+
+// Harness_C03_overwrite: one key written, optionally deleted, and written again with values of any lengths
+// up to maxvallen (prefixes, shorter, longer, equal): the write set holds exactly the last write.
+func Harness_C03_overwrite() {
+	db := NewOverlayDB(c03NewStore())
+	key := c03Key("key")
+	v1 := nondetBytes("v1", nondetRange("v1.len", param("maxvallen")+1))
+	v2 := nondetBytes("v2", nondetRange("v2.len", param("maxvallen")+1))
+	db.Put(key, v1)
+	if nondetBool("delete") {
+		db.Delete(key)
+	}
+	db.Put(key, v2)
+	n := 0
+	db.GetWriteSet().ForEach(func(k, val []byte) {
+		n++
+		assert(len(k) == len(key) && bytesEq(k, key), "overwrite-key")
+		assert(len(val) == len(v2), "overwrite-last-value-length")
+		if len(val) == len(v2) {
+			assert(bytesEq(val, v2), "overwrite-last-value-content")
+		}
+	})
+	assert(n == 1, "overwrite-one-entry")
+	got, err := db.Get(key)
+	assert(err == nil && len(got) == len(v2) && (len(got) != len(v2) || bytesEq(got, v2)), "overwrite-read-back")
 }
